@@ -223,11 +223,33 @@ def compare_texts_case(case: dict) -> dict:
 # C04
 # ------------------------------------------------------------------------------------------
 
-_GATE_MON = {"installed": False, "none_with_sets": 0, "reads": 0}
+_GATE_MON = {"installed": False, "none_with_sets": 0, "reads": 0, "fresh_checks": 0,
+             "stale": [], "fresh_undecided": 0, "seen": set()}
+
+
+def _tree_signature(tree: Any) -> tuple:
+    """What a gate tree says, independent of child order and node identity: the family of
+    successor sets it admits and the event types standing under a branch-count node."""
+    from . import gates
+    branched: list[str] = []
+
+    def walk(n: Any, under: bool) -> None:
+        op = getattr(n.operator, "value", n.operator)
+        if n.operator is None:
+            if under and n.label is not None:
+                branched.append(str(n.label))
+            return
+        for c in n.children:
+            walk(c, under or op == "BR")
+    walk(tree, False)
+    return (gates.admitted(tree), tuple(sorted(branched)))
 
 
 def install_gate_tree_monitor() -> None:
-    """In-situ: Event.logic_gate_tree must not read None for an event with successor sets."""
+    """In-situ (state anchor of C04, the staleness flag): Event.logic_gate_tree must not read
+    None for an event with successor sets, and the tree it returns must say what a tree
+    computed NOW from the event's current successor sets says (checked once per event and
+    state of its sets)."""
     if _GATE_MON["installed"]:
         return
     _GATE_MON["installed"] = True
@@ -240,6 +262,23 @@ def install_gate_tree_monitor() -> None:
         _GATE_MON["reads"] += 1
         if val is None and len(self.event_sets) > 0:
             _GATE_MON["none_with_sets"] += 1
+        elif val is not None and len(self.event_sets) > 0:
+            key = (id(self), hash(frozenset(self.event_sets)))
+            if key not in _GATE_MON["seen"]:
+                _GATE_MON["seen"].add(key)
+                try:
+                    fresh = ev.calculate_logic_gates(self.event_sets)
+                    a, b = _tree_signature(val), _tree_signature(fresh)
+                except Exception:  # noqa: BLE001 - the monitor never disturbs the run
+                    _GATE_MON["fresh_undecided"] += 1
+                else:
+                    _GATE_MON["fresh_checks"] += 1
+                    if a != b and len(_GATE_MON["stale"]) < 3:
+                        from . import gates
+                        _GATE_MON["stale"].append({
+                            "event_type": self.event_type,
+                            "cached": gates.show_pt(val), "fresh": gates.show_pt(fresh),
+                            "successor_sets": sorted(sorted(es.to_list()) for es in self.event_sets)})
         return val
     ev.Event.logic_gate_tree = property(monitored, fset)
 
@@ -295,6 +334,10 @@ def run_history_case(case: dict) -> dict:
     out: dict[str, Any] = {"status": "ok", "chunks": [len(c) for c in case["split"]]}
     _GATE_MON["none_with_sets"] = 0
     _GATE_MON["reads"] = 0
+    _GATE_MON["fresh_checks"] = 0
+    _GATE_MON["fresh_undecided"] = 0
+    _GATE_MON["stale"] = []
+    _GATE_MON["seen"] = set()
     def convert(pv_jobs: list[list[dict]], outdir: str, tag: str, model_in: str | None):
         """The -om/-im code path below the argument parser: job files on disk ->
         otel_to_puml(components="pv2puml", input_puml_models, output_puml_models=True)."""
@@ -353,6 +396,9 @@ def run_history_case(case: dict) -> dict:
             out["final_model"] = model_file_canonical(prev_model)
         out["gate_tree_none_with_sets"] = _GATE_MON["none_with_sets"]
         out["gate_tree_reads"] = _GATE_MON["reads"]
+        out["gate_tree_fresh_checks"] = _GATE_MON["fresh_checks"]
+        out["gate_tree_fresh_undecided"] = _GATE_MON["fresh_undecided"]
+        out["gate_tree_stale"] = list(_GATE_MON["stale"])
     finally:
         shutil.rmtree(wd, ignore_errors=True)
     out["reference_model"] = _norm_fp(reference_fingerprint(jobs))
@@ -439,6 +485,9 @@ def _judge_history(out: dict, jobs: list[tuple], rng: random.Random, case: dict)
         if a is not None:
             rej = [i for i, job in enumerate(jobs) if puml.accepts(a, job) is False]
             out["final_rejects"] = rej[:5]
+    if out.get("gate_tree_stale"):
+        v.append({"symptom": "gate-tree-read-does-not-reflect-current-successor-sets",
+                  "detail": {"examples": out["gate_tree_stale"]}})
     if out.get("gate_tree_none_with_sets"):
         v.append({"symptom": "gate-tree-missing-for-event-with-successors",
                   "detail": {"count": out["gate_tree_none_with_sets"]}})
